@@ -5,25 +5,14 @@ From RV Require Import Paths.Model Paths.Basics.
 
 Section E.
 Variable g : graph.
+(* the store's enumeration of the matches of a pattern: any order, any multiplicity -
+   only the set matters for what follows (Paths/Order.v treats the multiset) *)
+Variable En : enum.
+Hypothesis HE : forall pt t, In t (En pt) <-> In t g /\ matches pt t = true.
 
-Definition end_nd (e : option term) : bool :=
-  match e with None => true | Some a => memb N.eqb a (nodes g) end.
-
-(* the situation in which a sub-evaluator is called: a side condition K on the
-   sub-path holds, or every bound end is a node of the graph (the final theorems
-   instantiate K with True; the parameter dates from the time of finding F4d) *)
-Definition cond (K : Prop) (s o : option term) : Prop :=
-  K \/ (end_nd s = true /\ end_nd o = true).
-
-Definition ev_spec (f : ev) (R : rel) (K : Prop) : Prop :=
-  forall s o, cond K s o ->
+Definition ev_spec (f : ev) (R : rel) : Prop :=
+  forall s o,
     exists l, f s o = Ok l /\ forall x y, In (x, y) l <-> R x y /\ ends_ok g s o x y.
-
-Lemma end_nd_In a : end_nd (Some a) = true <-> In a (nodes g).
-Proof. simpl. apply memb_In, N.eqb_spec. Qed.
-
-Lemma cond_weaken (K K' : Prop) s o : (K -> K') -> cond K s o -> cond K' s o.
-Proof. intros H [Hk|Hn]; [left; auto|right; auto]. Qed.
 
 Definition end_okP (e : option term) (x : term) : Prop :=
   match e with Some b => x = b | None => True end.
@@ -38,27 +27,26 @@ Lemma ends_ok_swap s o x y : ends_ok g o s y x <-> ends_ok g s o x y.
 Proof. destruct s, o; simpl; tauto. Qed.
 
 (* ---------------------------------------------------------------- Iri *)
-Lemma ev_iri_spec q : ev_spec (ev_iri g q) (fun x y => In (x, q, y) g) True.
+Lemma ev_iri_spec q : ev_spec (ev_iri En q) (fun x y => In (x, q, y) g).
 Proof.
-  intros s o _. eexists; split; [reflexivity|]. intros x y.
-  unfold triples_of. rewrite in_map_iff. split.
-  - intros ([[a b] c] & Heq & Hin). rewrite filter_In in Hin. destruct Hin as [Hin Hm].
+  intros s o. eexists; split; [reflexivity|]. intros x y.
+  rewrite in_map_iff. split.
+  - intros ([[a b] c] & Heq & Hin). rewrite HE in Hin. destruct Hin as [Hin Hm].
     simpl in Heq. injection Heq as -> ->. simpl in Hm.
     rewrite !andb_true_iff in Hm. destruct Hm as [[H1 H2] H3].
     apply N.eqb_eq in H2. subst b. split; auto.
     pose proof (in_graph_nodes _ _ _ _ Hin) as [Hx Hy].
     destruct s, o; simpl in *; rewrite ?N.eqb_eq in *; auto.
   - intros [Hin He]. exists (x, q, y). split; [reflexivity|].
-    rewrite filter_In. split; auto. simpl.
+    rewrite HE. split; auto. simpl.
     destruct s, o; simpl in *; repeat match goal with H : _ /\ _ |- _ => destruct H end; subst;
       rewrite ?N.eqb_refl; auto.
 Qed.
 
 (* ---------------------------------------------------------------- Inv *)
-Lemma ev_inv_spec f R K : ev_spec f R K -> ev_spec (ev_inv f) (fun x y => R y x) K.
+Lemma ev_inv_spec f R : ev_spec f R -> ev_spec (ev_inv f) (fun x y => R y x).
 Proof.
-  intros H s o Hc. destruct (H o s) as (l & Hl & Hin).
-  { destruct Hc as [Hk|[H1 H2]]; [left; auto|right; auto]. }
+  intros H s o. destruct (H o s) as (l & Hl & Hin).
   exists (map swap l). split; [unfold ev_inv; rewrite Hl; reflexivity|].
   intros x y. rewrite in_map_iff. split.
   - intros ([a b] & Heq & Hab). unfold swap in Heq; simpl in Heq. injection Heq as <- <-.
@@ -70,25 +58,21 @@ Qed.
 Section Lists.
 Variable F : path -> ev.
 Variable Rf : path -> rel.
-Variable Kf : path -> Prop.
 Hypothesis Rf_RN : forall a, RN g (Rf a).
 
-Definition good (a : path) : Prop := ev_spec (F a) (Rf a) (Kf a).
-Definition allK (l : list path) : Prop := forall a, In a l -> Kf a.
+Definition good (a : path) : Prop := ev_spec (F a) (Rf a).
 
-Lemma ev_alt_spec l : Forall good l -> ev_spec (ev_alt (map F l)) (alt_rel (map Rf l)) (allK l).
+Lemma ev_alt_spec l : Forall good l -> ev_spec (ev_alt (map F l)) (alt_rel (map Rf l)).
 Proof.
-  intros H s o Hc. rewrite Forall_forall in H. unfold ev_alt. rewrite map_map.
-  assert (Hca : forall a, In a l -> cond (Kf a) s o).
-  { intros a Ha. eapply cond_weaken; [|exact Hc]. intros Hk; auto. }
+  intros H s o. rewrite Forall_forall in H. unfold ev_alt. rewrite map_map.
   destruct (rconcat_spec (fun a => F a s o) l) as (r & Hr & Hin).
-  { intros a Ha. destruct (H a Ha s o (Hca a Ha)) as (l0 & ? & _). eauto. }
+  { intros a Ha. destruct (H a Ha s o) as (l0 & ? & _). eauto. }
   exists r. split; auto. intros x y. rewrite Hin. split.
-  - intros (a & l0 & Ha & Hl0 & Hy). destruct (H a Ha s o (Hca a Ha)) as (l1 & Hl1 & Hspec).
+  - intros (a & l0 & Ha & Hl0 & Hy). destruct (H a Ha s o) as (l1 & Hl1 & Hspec).
     rewrite Hl0 in Hl1. injection Hl1 as <-. apply Hspec in Hy. destruct Hy. split; auto.
     exists (Rf a). split; [apply in_map; auto|auto].
   - intros [(R & HR & Hxy) He]. rewrite in_map_iff in HR. destruct HR as (a & <- & Ha).
-    destruct (H a Ha s o (Hca a Ha)) as (l1 & Hl1 & Hspec).
+    destruct (H a Ha s o) as (l1 & Hl1 & Hspec).
     exists a, l1. repeat split; auto. apply Hspec; auto.
 Qed.
 
@@ -121,37 +105,30 @@ Proof. apply seq_rel_RN. rewrite Forall_map. apply Forall_forall. intros; apply 
 
 (* start bound: exact *)
 Lemma seq_fw_bound l : l <> [] -> Forall good l ->
-  forall a o, cond (allK l) (Some a) o ->
+  forall a o,
   exists r, seq_fw (map F l) (Some a) o = Ok r
             /\ forall x y, In (x, y) r <-> seq_rel (map Rf l) x y /\ x = a /\ end_okP o y.
 Proof.
-  induction l as [|p l IH]; [congruence|]. intros _ Hg a o Hc.
+  induction l as [|p l IH]; [congruence|]. intros _ Hg a o.
   inversion Hg as [|? ? Hp Hl]; subst.
   destruct l as [|p2 l'].
   - simpl map. rewrite seq_fw_one.
     destruct (Hp (Some a) o) as (r & Hr & Hin).
-    { eapply cond_weaken; [|exact Hc]. intros Hk; apply Hk; simpl; auto. }
     exists r. split; auto. intros x y. rewrite Hin, seq_rel_one, ends_ok_bound. tauto.
   - set (rest := p2 :: l') in *. assert (Hne : rest <> []) by (unfold rest; congruence).
     simpl map. rewrite seq_fw_cons by (unfold rest; simpl; congruence).
     destruct (Hp (Some a) None) as (xs & Hxs & Hxin).
-    { destruct Hc as [Hk|[H1 H2]]; [left; apply Hk; simpl; auto|right; auto]. }
     rewrite Hxs. simpl bind.
     assert (Hz : forall xz, In xz xs -> Rf p a (snd xz) /\ fst xz = a).
     { intros [x z] Hxz. apply Hxin in Hxz. simpl in *. destruct Hxz as [? ->]. auto. }
-    assert (Hcz : forall xz, In xz xs -> cond (allK rest) (Some (snd xz)) o).
-    { intros xz Hxz. destruct Hc as [Hk|[H1 H2]].
-      - left. intros q Hq. apply Hk. right; auto.
-      - right. split; auto. apply end_nd_In. apply end_nd_In in H1.
-        destruct (Hz xz Hxz) as [HR _]. destruct (Rf_RN _ _ _ HR) as [<-|[_ ?]]; auto. }
     destruct (rconcat_spec (fun xz : pr =>
        rmap (map (fun r : pr => (fst xz, snd r))) (seq_fw (map F rest) (Some (snd xz)) o)) xs)
       as (r & Hr & Hrin).
-    { intros xz Hxz. destruct (IH Hne Hl (snd xz) o (Hcz xz Hxz)) as (r0 & Hr0 & _).
+    { intros xz Hxz. destruct (IH Hne Hl (snd xz) o) as (r0 & Hr0 & _).
       rewrite Hr0. cbn [rmap bind]. eauto. }
     exists r. split; auto. intros x y. rewrite Hrin. split.
     + intros (xz & l0 & Hxz & Hl0 & Hy).
-      destruct (IH Hne Hl (snd xz) o (Hcz xz Hxz)) as (r0 & Hr0 & Hr0in).
+      destruct (IH Hne Hl (snd xz) o) as (r0 & Hr0 & Hr0in).
       rewrite Hr0 in Hl0. cbn [rmap bind] in Hl0. injection Hl0 as <-.
       rewrite in_map_iff in Hy. destruct Hy as ([z' y'] & Heq & Hzy). simpl in Heq.
       injection Heq as <- <-. apply Hr0in in Hzy. destruct Hzy as (Hs & -> & He).
@@ -159,7 +136,6 @@ Proof.
       simpl. exists (snd xz). rewrite Hf. split; auto.
     + intros ((z & HR & Hs) & -> & He).
       exists (a, z). destruct (IH Hne Hl z o) as (r0 & Hr0 & Hr0in).
-      { apply (Hcz (a, z)). apply Hxin. simpl. auto. }
       exists (map (fun r1 : pr => (a, snd r1)) r0). split; [apply Hxin; simpl; auto|].
       split; [cbn [fst snd]; rewrite Hr0; reflexivity|].
       rewrite in_map_iff. exists (z, y). split; [reflexivity|]. apply Hr0in. auto.
@@ -167,36 +143,30 @@ Qed.
 
 (* start unbound, two or more steps: the first step is evaluated with both ends unbound *)
 Lemma seq_fw_unbound p rest o : rest <> [] -> Forall good (p :: rest) ->
-  allK (p :: rest) \/ end_nd o = true ->
   exists r, seq_fw (map F (p :: rest)) None o = Ok r
             /\ forall x y, In (x, y) r <->
                  exists z, Rf p x z /\ In x (nodes g) /\ In z (nodes g)
                            /\ seq_rel (map Rf rest) z y /\ end_okP o y.
 Proof.
-  intros Hne Hg Hc. inversion Hg as [|? ? Hp Hl]; subst.
+  intros Hne Hg. inversion Hg as [|? ? Hp Hl]; subst.
   simpl map. rewrite seq_fw_cons by (destruct rest; simpl; congruence).
-  destruct (Hp None None) as (xs & Hxs & Hxin); [right; auto|].
+  destruct (Hp None None) as (xs & Hxs & Hxin).
   rewrite Hxs. simpl bind.
-  assert (Hcz : forall xz, In xz xs -> cond (allK rest) (Some (snd xz)) o).
-  { intros [x z] Hxz. apply Hxin in Hxz. destruct Hxz as [_ [_ Hzn]]. simpl.
-    destruct Hc as [Hk|Ho].
-    - left. intros q Hq. apply Hk. right; auto.
-    - right. split; auto. apply end_nd_In; auto. }
   destruct (rconcat_spec (fun xz : pr =>
      rmap (map (fun r : pr => (fst xz, snd r))) (seq_fw (map F rest) (Some (snd xz)) o)) xs)
     as (r & Hr & Hrin).
-  { intros xz Hxz. destruct (seq_fw_bound rest Hne Hl (snd xz) o (Hcz xz Hxz)) as (r0 & Hr0 & _).
+  { intros xz Hxz. destruct (seq_fw_bound rest Hne Hl (snd xz) o) as (r0 & Hr0 & _).
     rewrite Hr0. cbn [rmap bind]. eauto. }
   exists r. split; auto. intros x y. rewrite Hrin. split.
   - intros ([x' z] & l0 & Hxz & Hl0 & Hy).
-    destruct (seq_fw_bound rest Hne Hl z o (Hcz _ Hxz)) as (r0 & Hr0 & Hr0in).
+    destruct (seq_fw_bound rest Hne Hl z o) as (r0 & Hr0 & Hr0in).
     cbn [fst snd] in Hl0. rewrite Hr0 in Hl0. cbn [rmap bind] in Hl0. injection Hl0 as <-.
     rewrite in_map_iff in Hy. destruct Hy as ([z' y'] & Heq & Hzy). simpl in Heq.
     injection Heq as <- <-. apply Hr0in in Hzy. destruct Hzy as (Hs & -> & He).
     apply Hxin in Hxz. destruct Hxz as [HR [Hx Hz]]. exists z. auto.
   - intros (z & HR & Hx & Hz & Hs & He).
     assert (Hxz : In (x, z) xs) by (apply Hxin; simpl; auto).
-    destruct (seq_fw_bound rest Hne Hl z o (Hcz _ Hxz)) as (r0 & Hr0 & Hr0in).
+    destruct (seq_fw_bound rest Hne Hl z o) as (r0 & Hr0 & Hr0in).
     exists (x, z), (map (fun r1 : pr => (x, snd r1)) r0). split; auto.
     split; [cbn [fst snd]; rewrite Hr0; reflexivity|].
     rewrite in_map_iff. exists (z, y). split; [reflexivity|]. apply Hr0in. auto.
@@ -209,7 +179,7 @@ Lemma seq_fw_free l : l <> [] -> Forall good l ->
 Proof.
   intros Hne Hg. destruct l as [|p rest]; [congruence|]. destruct rest as [|p2 l'].
   - inversion Hg as [|? ? Hp _]; subst. simpl map. rewrite seq_fw_one.
-    destruct (Hp None None) as (r & Hr & Hin); [right; auto|].
+    destruct (Hp None None) as (r & Hr & Hin).
     exists r. split; auto. intros x y. rewrite Hin, seq_rel_one. tauto.
   - destruct (@seq_fw_unbound p (p2 :: l') None) as (r & Hr & Hin); auto; [congruence|].
     exists r. split; auto. intros x y. rewrite Hin. simpl ends_ok. split.
@@ -236,62 +206,54 @@ Qed.
 
 (* end bound, evaluated backwards (rl is the reversed list of steps): exact *)
 Lemma seq_bwr_bound rl : rl <> [] -> Forall good rl ->
-  forall s b, cond (allK rl) s (Some b) ->
+  forall s b,
   exists r, seq_bwr (map F rl) s (Some b) = Ok r
             /\ forall x y, In (x, y) r <-> seq_rel (map Rf (rev rl)) x y /\ y = b /\ end_okP s x.
 Proof.
-  induction rl as [|p l IH]; [congruence|]. intros _ Hg s b Hc.
+  induction rl as [|p l IH]; [congruence|]. intros _ Hg s b.
   inversion Hg as [|? ? Hp Hl]; subst.
   destruct l as [|p2 l'].
   - simpl map. rewrite seq_bwr_one.
     destruct (Hp s (Some b)) as (r & Hr & Hin).
-    { eapply cond_weaken; [|exact Hc]. intros Hk; apply Hk; simpl; auto. }
     exists r. split; auto. intros x y. rewrite Hin, seq_rel_one.
     destruct s; simpl; intuition (subst; auto).
   - remember (p2 :: l') as rest eqn:Hrest. assert (Hne : rest <> []) by (subst; congruence).
     simpl map. rewrite seq_bwr_cons by (destruct rest; simpl; congruence).
     destruct (Hp None (Some b)) as (xs & Hxs & Hxin).
-    { destruct Hc as [Hk|[H1 H2]]; [left; apply Hk; simpl; auto|right; auto]. }
     rewrite Hxs. cbn [bind].
     assert (Hz : forall sz, In sz xs -> Rf p (fst sz) b /\ snd sz = b).
     { intros [z y] Hzy. apply Hxin in Hzy. simpl in *. destruct Hzy as [? ->]. auto. }
-    assert (Hcz : forall sz, In sz xs -> cond (allK rest) s (Some (fst sz))).
-    { intros sz Hsz. destruct Hc as [Hk|[H1 H2]].
-      - left. intros q Hq. apply Hk. right; auto.
-      - right. split; auto. apply end_nd_In. apply end_nd_In in H2.
-        destruct (Hz sz Hsz) as [HR _]. destruct (Rf_RN _ _ _ HR) as [->|[? _]]; auto. }
     destruct (rconcat_spec (fun sz : pr =>
        rmap (map (fun r : pr => (fst r, snd sz))) (seq_bwr (map F rest) s (Some (fst sz)))) xs)
       as (r & Hr & Hrin).
-    { intros sz Hsz. destruct (IH Hne Hl s (fst sz) (Hcz sz Hsz)) as (r0 & Hr0 & _).
+    { intros sz Hsz. destruct (IH Hne Hl s (fst sz)) as (r0 & Hr0 & _).
       rewrite Hr0. cbn [rmap bind]. eauto. }
     exists r. split; auto. intros x y. rewrite Hrin. simpl rev. rewrite map_app. simpl map.
     rewrite seq_rel_snoc. split.
     + intros (sz & l0 & Hsz & Hl0 & Hy).
-      destruct (IH Hne Hl s (fst sz) (Hcz sz Hsz)) as (r0 & Hr0 & Hr0in).
+      destruct (IH Hne Hl s (fst sz)) as (r0 & Hr0 & Hr0in).
       rewrite Hr0 in Hl0. cbn [rmap bind] in Hl0. injection Hl0 as <-.
       rewrite in_map_iff in Hy. destruct Hy as ([x' z'] & Heq & Hxz). simpl in Heq.
       injection Heq as E1 E2. subst x' y. apply Hr0in in Hxz. destruct Hxz as (Hs & E3 & He). subst z'.
       destruct (Hz sz Hsz) as [HR Hf]. split; [|split; auto]. exists (fst sz). rewrite Hf. auto.
     + intros ((z & Hs & HR) & Hy & He). subst y.
       assert (Hzb : In (z, b) xs) by (apply Hxin; simpl; auto).
-      destruct (IH Hne Hl s z (Hcz (z, b) Hzb)) as (r0 & Hr0 & Hr0in).
+      destruct (IH Hne Hl s z) as (r0 & Hr0 & Hr0in).
       exists (z, b), (map (fun r1 : pr => (fst r1, b)) r0). split; auto.
       split; [cbn [fst snd]; rewrite Hr0; reflexivity|].
       rewrite in_map_iff. exists (x, z). split; [reflexivity|]. apply Hr0in. auto.
 Qed.
 
 Lemma ev_seq_spec l : l <> [] -> Forall good l ->
-  ev_spec (ev_seq (map F l)) (seq_rel (map Rf l)) (allK l).
+  ev_spec (ev_seq (map F l)) (seq_rel (map Rf l)).
 Proof.
-  intros Hne Hg s o Hc. unfold ev_seq. destruct s as [a|]; [|destruct o as [b|]].
-  - destruct (seq_fw_bound l Hne Hg a o Hc) as (r & Hr & Hin).
+  intros Hne Hg s o. unfold ev_seq. destruct s as [a|]; [|destruct o as [b|]].
+  - destruct (seq_fw_bound l Hne Hg a o) as (r & Hr & Hin).
     exists r. split; auto. intros x y. rewrite Hin, ends_ok_bound. tauto.
   - unfold seq_bw. rewrite <- map_rev.
     destruct (seq_bwr_bound (rev l)) with (s := @None term) (b := b) as (r & Hr & Hin).
     + intros H. apply Hne. rewrite <- (rev_involutive l), H. reflexivity.
     + apply Forall_rev. auto.
-    + eapply cond_weaken; [|exact Hc]. intros Hk q Hq. apply Hk. apply in_rev. auto.
     + exists r. split; auto. intros x y. rewrite Hin, rev_involutive. simpl. tauto.
   - apply seq_fw_free; auto.
 Qed.
@@ -299,22 +261,31 @@ Qed.
 End Lists.
 
 (* ---------------------------------------------------------------- Neg *)
-Definition neg_clean (l : list negarg) : Prop := forall a, In a l -> exists q, a = NIri q.
+Definition neg_nobad (l : list negarg) : Prop := forall a, In a l -> a <> NBad.
 
-Lemma neg_keep_clean l : neg_clean l ->
-  forall s p o, neg_keep g (s, p, o) l = Ok (negb (memb N.eqb p (neg_fw l))).
+Definition neg_keepb (l : list negarg) (s p o : term) : bool :=
+  negb (memb N.eqb p (neg_fw l)) && negb (existsb (fun q => memb triple_eqb (o, q, s) g) (neg_iv l)).
+
+Lemma neg_keep_val l : neg_nobad l ->
+  forall s p o, neg_keep g (s, p, o) l = Ok (neg_keepb l s p o).
 Proof.
-  induction l as [|a l IH]; intros Hc s p o; simpl; [reflexivity|].
-  destruct (Hc a (or_introl eq_refl)) as [q ->]. simpl.
-  destruct (N.eqb p q) eqn:E; simpl; [reflexivity|].
-  apply IH. intros b Hb; apply Hc; now right.
+  unfold neg_keepb. induction l as [|a l IH]; intros Hc s p o; [reflexivity|].
+  assert (Hc' : neg_nobad l) by (intros b Hb; apply Hc; now right).
+  destruct a as [q|q|]; [| |exfalso; apply (Hc NBad); simpl; auto]; cbn [neg_keep neg_fw neg_iv flat_map app memb existsb].
+  - destruct (N.eqb p q) eqn:Eq; [reflexivity|]. cbn [orb]. apply IH; auto.
+  - destruct (memb triple_eqb (o, q, s) g) eqn:Em; [cbn [orb negb]; rewrite andb_false_r; reflexivity|].
+    cbn [orb]. apply IH; auto.
 Qed.
 
-Lemma neg_iv_clean l : neg_clean l -> neg_iv l = [].
+Lemma neg_keepb_true l s p o :
+  neg_keepb l s p o = true <-> ~ In p (neg_fw l) /\ forall q, In q (neg_iv l) -> ~ In (o, q, s) g.
 Proof.
-  induction l as [|a l IH]; intros Hc; simpl; [reflexivity|].
-  destruct (Hc a (or_introl eq_refl)) as [q ->]. simpl. apply IH.
-  intros b Hb; apply Hc; now right.
+  unfold neg_keepb. rewrite andb_true_iff, !negb_true_iff, membN_false. split; intros [H1 H2]; split; auto.
+  - intros q Hq Hin. assert (existsb (fun q => memb triple_eqb (o, q, s) g) (neg_iv l) = true).
+    { apply existsb_exists. exists q. split; auto. apply (memb_In triple_eqb triple_eqb_spec). auto. }
+    congruence.
+  - destruct (existsb _ (neg_iv l)) eqn:Ex; auto. apply existsb_exists in Ex.
+    destruct Ex as (q & Hq & Hm). apply (memb_In triple_eqb triple_eqb_spec) in Hm. exfalso. eapply H2; eauto.
 Qed.
 
 Lemma matches_ends s o x p y : In (x, p, y) g ->
@@ -324,25 +295,24 @@ Proof.
   destruct s, o; simpl; rewrite ?andb_true_iff, ?N.eqb_eq; intuition (subst; auto).
 Qed.
 
-Lemma ev_neg_spec l : neg_clean l -> ev_spec (ev_neg g l) (neg_rel g l) True.
+(* for any members (forward and inverse): the relation the code computes *)
+Lemma ev_neg_spec l : neg_nobad l -> ev_spec (ev_neg g En l) (neg_rel_impl g l).
 Proof.
-  intros Hc s o _. unfold ev_neg.
+  intros Hc s o. unfold ev_neg.
   destruct (rconcat_spec (fun t => rmap (fun b : bool => if b then [so_of t] else []) (neg_keep g t l))
-              (triples_of g (s, None, o))) as (r & Hr & Hin).
-  { intros [[a p] b] _. rewrite neg_keep_clean by auto. simpl. eauto. }
-  exists r. split; auto. intros x y. rewrite Hin. unfold neg_rel. rewrite (neg_iv_clean l Hc). split.
-  - intros ([[a p] b] & l0 & Ht & Hl0 & Hy). rewrite neg_keep_clean in Hl0 by auto.
+              (En (s, None, o))) as (r & Hr & Hin).
+  { intros [[a p] b] _. rewrite neg_keep_val by auto. simpl. eauto. }
+  exists r. split; auto. intros x y. rewrite Hin. unfold neg_rel_impl. split.
+  - intros ([[a p] b] & l0 & Ht & Hl0 & Hy). rewrite neg_keep_val in Hl0 by auto.
     simpl in Hl0. injection Hl0 as <-.
-    destruct (memb N.eqb p (neg_fw l)) eqn:E; simpl in Hy; [destruct Hy|].
+    destruct (neg_keepb l a p b) eqn:Ek; simpl in Hy; [|destruct Hy].
     destruct Hy as [Heq|[]]. injection Heq as -> ->.
-    unfold triples_of in Ht. rewrite filter_In in Ht. destruct Ht as [Hin0 Hm].
-    split; [|apply (matches_ends s o _ _ _ Hin0); auto].
-    left. split; [left; reflexivity|]. exists p. split; auto.
-    apply membN_false in E. auto.
-  - intros [[[_ (p & Hp & Hnp)]|[Hf _]] He]; [|congruence].
-    exists (x, p, y). eexists. split; [|split; [rewrite neg_keep_clean by auto; reflexivity|]].
-    + unfold triples_of. rewrite filter_In. split; auto. apply matches_ends; auto.
-    + apply membN_false in Hnp. rewrite Hnp. simpl. auto.
+    rewrite HE in Ht. destruct Ht as [Hin0 Hm]. apply neg_keepb_true in Ek. destruct Ek.
+    split; [|apply (matches_ends s o _ _ _ Hin0); auto]. exists p. auto.
+  - intros [(p & Hp & Hnp & Hiv) He].
+    exists (x, p, y). eexists. split; [|split; [rewrite neg_keep_val by auto; reflexivity|]].
+    + rewrite HE. split; auto. apply matches_ends; auto.
+    + assert (Hk : neg_keepb l x p y = true) by (apply neg_keepb_true; auto). rewrite Hk. simpl. auto.
 Qed.
 
 (* ---------------------------------------------------------------- Mul *)
@@ -396,8 +366,7 @@ Qed.
 Section MulS.
 Variable f : ev.
 Variable R : rel.
-Variable K : Prop.
-Hypothesis Hf : ev_spec f R K.
+Hypothesis Hf : ev_spec f R.
 Hypothesis HRN : RN g R.
 
 Definition dfs_post (root : term) (obj : option term) (seen : list term)
@@ -483,13 +452,12 @@ Proof.
 Qed.
 
 Lemma fwd_spec n : forall root obj seen,
-  K \/ In root (nodes g) -> meas (root :: seen) < n ->
+  meas (root :: seen) < n ->
   exists ys sn, fwd f true n root obj seen = Ok (ys, sn) /\ dfs_post root obj seen ys sn.
 Proof.
-  induction n as [|n' IH]; intros root obj seen Hk Hm; [lia|].
+  induction n as [|n' IH]; intros root obj seen Hm; [lia|].
   cbn [fwd].
   destruct (Hf (Some root) None) as (xs & Hxs & Hxin).
-  { destruct Hk as [Hk|Hn]; [left; auto|right; split; auto; apply end_nd_In; auto]. }
   rewrite Hxs. cbn [bind].
   destruct (@fwd_loop_spec (fun v sn => fwd f true n' v obj sn) obj n' root) with (xs := xs) (seenc := root :: seen)
     as (ys & sn & Hl & L1 & L2 & L3 & L4 & L5).
@@ -529,19 +497,18 @@ Lemma meas_fuel seen : meas seen < n.
 Proof. pose proof (meas_le_nodes seen). unfold fuel in Hn. lia. Qed.
 
 (* the search from a bound start *)
-Lemma raw_fwd more a o : K \/ In a (nodes g) ->
+Lemma raw_fwd more a o :
   exists r, rmap fst (fwd f more n a o []) = Ok r
     /\ forall x y, In (x, y) r <->
          x = a /\ end_okP o y /\ (if more then tc R a y else R a y).
 Proof.
-  intros Hk. destruct more.
-  - destruct (fwd_spec n a o [] Hk (meas_fuel _)) as (ys & sn & Hy & Hpost).
+  destruct more.
+  - destruct (fwd_spec n a o [] (meas_fuel _)) as (ys & sn & Hy & Hpost).
     exists ys. split; [rewrite Hy; reflexivity|]. intros x y. split.
     + intros Hin. destruct Hpost as (_ & _ & P3 & _). destruct (P3 _ _ Hin) as (-> & ? & ?). auto.
     + intros (-> & He & Ht). eapply dfs_complete; eauto.
   - destruct n as [|n']; [unfold fuel in Hn; lia|]. cbn [fwd].
     destruct (Hf (Some a) None) as (xs & Hxs & Hxin).
-    { destruct Hk as [Hk|Hk]; [left; auto|right; split; auto; apply end_nd_In; auto]. }
     rewrite Hxs. cbn [bind]. rewrite fwd_loop_once. cbn [rmap bind fst].
     eexists; split; [reflexivity|]. intros x y. rewrite filter_In, Hxin. cbn [snd].
     rewrite end_ok_P. simpl. intuition (subst; auto).
@@ -563,7 +530,6 @@ Proof.
       * intros [(so0 & [<-|Hso] & Hx) [Hns Ht]]; [subst x; tauto|]. split; eauto.
     + apply membN_false in E.
       destruct (fwd_spec n (fst so) None []) as (ys & sn & Hy & Hpost).
-      { right. apply Hnd. simpl; auto. }
       { apply meas_fuel. }
       rewrite Hy. cbn [bind fst].
       assert (Hall : forallb (fun y : pr => N.eqb (fst y) (fst so)) ys = true).
@@ -583,20 +549,20 @@ Proof.
            split; [eauto|]. split; auto. simpl. intros [?|?]; [congruence|tauto].
 Qed.
 
-Lemma all_fwd_spec zero more :
-  exists r, all_fwd g f zero more n = Ok r
+Lemma all_fwd_spec gl zero more : (forall v, In v (nodes gl) <-> In v (nodes g)) ->
+  exists r, all_fwd gl f zero more n = Ok r
     /\ forall x y, In (x, y) r <->
          (zero = true /\ x = y /\ In x (nodes g))
          \/ (In x (nodes g) /\ In y (nodes g) /\ (if more then tc R x y else R x y)).
 Proof.
-  unfold all_fwd. destruct (Hf None None) as (xs & Hxs & Hxin); [right; auto|].
+  intros Hgl. unfold all_fwd. destruct (Hf None None) as (xs & Hxs & Hxin).
   rewrite Hxs. cbn [bind].
-  set (z := if zero then map (fun v => (v, v)) (dedup N.eqb (nodes g)) else []).
+  set (z := if zero then map (fun v => (v, v)) (dedup N.eqb (nodes gl)) else []).
   assert (Hz : forall x y, In (x, y) z <-> zero = true /\ x = y /\ In x (nodes g)).
   { intros x y. unfold z. destruct zero.
     - rewrite in_map_iff. split.
-      + intros (v & Heq & Hv). injection Heq as <- <-. rewrite dedupN_In in Hv. auto.
-      + intros (_ & <- & Hx). exists x. split; auto. apply dedupN_In. auto.
+      + intros (v & Heq & Hv). injection Heq as <- <-. rewrite dedupN_In, Hgl in Hv. auto.
+      + intros (_ & <- & Hx). exists x. split; auto. apply dedupN_In. apply Hgl. auto.
     - split; [intros []|intros [? _]; discriminate]. }
   destruct more.
   - destruct (starts_spec xs) with (seen := @nil term) as (r0 & Hr0 & Hin).
@@ -667,9 +633,10 @@ Proof.
   - split; [intros []|]. intros (_ & _ & _ & _ & [H|H]); congruence.
 Qed.
 
-Lemma mul_raw_spec f R K n m : ev_spec f R K -> RN g R -> fuel g <= n ->
-  forall s o, cond K s o ->
-  exists r, mul_raw g n f m s o = Ok r
+Lemma mul_raw_spec gl f R n m : (forall v, In v (nodes gl) <-> In v (nodes g)) ->
+  ev_spec f R -> RN g R -> fuel g <= n ->
+  forall s o,
+  exists r, mul_raw gl n f m s o = Ok r
     /\ forall x y, In (x, y) r <->
          match s, o with
          | None, None =>
@@ -678,15 +645,13 @@ Lemma mul_raw_spec f R K n m : ev_spec f R K -> RN g R -> fuel g <= n ->
          | _, _ => end_okP s x /\ end_okP o y /\ (if mod_more m then tc R x y else R x y)
          end.
 Proof.
-  intros Hf HRN Hn s o Hc. destruct s as [a|]; [|destruct o as [b|]]; cbn [mul_raw].
-  - destruct (@raw_fwd f R K Hf HRN n Hn (mod_more m) a o) as (r & Hr & Hin).
-    { destruct Hc as [?|[H _]]; [left; auto|right; apply end_nd_In; auto]. }
+  intros Hgl Hf HRN Hn s o. destruct s as [a|]; [|destruct o as [b|]]; cbn [mul_raw].
+  - destruct (@raw_fwd f R Hf HRN n Hn (mod_more m) a o) as (r & Hr & Hin).
     exists r. split; auto. intros x y. rewrite Hin. simpl end_okP.
     split; [intros (-> & ? & ?)|intros (-> & ? & ?)]; auto.
   - rewrite bwd_fwd.
-    destruct (@raw_fwd (ev_inv f) (fun x y => R y x) K (ev_inv_spec f R K Hf) (RN_conv R HRN) n Hn (mod_more m) b None)
+    destruct (@raw_fwd (ev_inv f) (fun x y => R y x) (ev_inv_spec f R Hf) (RN_conv R HRN) n Hn (mod_more m) b None)
       as (r & Hr & Hin).
-    { destruct Hc as [?|[_ H]]; [left; auto|right; apply end_nd_In; auto]. }
     destruct (fwd (ev_inv f) (mod_more m) n b None []) as [[ys sn]| |]; try discriminate.
     cbn [rmap bind fst sw] in *. injection Hr as <-.
     eexists; split; [reflexivity|]. intros x y. rewrite in_map_iff. simpl end_okP. split.
@@ -695,14 +660,15 @@ Proof.
       destruct (mod_more m); auto. apply tc_conv in Ht. auto.
     + intros (_ & -> & Ht). exists (b, x). split; [reflexivity|]. apply Hin.
       split; auto. split; [exact I|]. destruct (mod_more m); auto. apply tc_conv. auto.
-  - apply (all_fwd_spec f R K Hf HRN n Hn).
+  - apply (all_fwd_spec f R Hf HRN n Hn); auto.
 Qed.
 
-Lemma ev_mul_spec f R K n m : ev_spec f R K -> RN g R -> fuel g <= n ->
-  ev_spec (ev_mul g n f m) (mul_rel m R) K.
+Lemma ev_mul_spec gl f R n m : (forall v, In v (nodes gl) <-> In v (nodes g)) ->
+  ev_spec f R -> RN g R -> fuel g <= n ->
+  ev_spec (ev_mul gl n f m) (mul_rel m R).
 Proof.
-  intros Hf HRN Hn s o Hc. unfold ev_mul.
-  destruct (mul_raw_spec f R K n m Hf HRN Hn s o Hc) as (r & Hr & Hin). rewrite Hr. cbn [rmap bind].
+  intros Hgl Hf HRN Hn s o. unfold ev_mul.
+  destruct (mul_raw_spec gl f R n m Hgl Hf HRN Hn s o) as (r & Hr & Hin). rewrite Hr. cbn [rmap bind].
   eexists; split; [reflexivity|]. intros x y.
   rewrite (dedup_acc_In pr_eqb pr_eqb_spec), mul_pre_In, Hin, mul_rel_split.
   destruct s as [a|], o as [b|]; simpl.
@@ -712,6 +678,13 @@ Proof.
   - split.
     + intros [(_ & _ & _ & _ & [H|H])|[(Hz & <- & Hx)|(Hx & Hy & Ht)]]; try congruence; auto.
     + intros [[[Hz <-]|Ht] [Hx Hy]]; auto.
+Qed.
+
+Lemma enum_all_nodes : forall v, In v (nodes (En (None, None, None))) <-> In v (nodes g).
+Proof.
+  assert (H : forall t, In t (En (None, None, None)) <-> In t g).
+  { intros [[a b] c]. rewrite HE. simpl. tauto. }
+  intros v. unfold nodes. rewrite !in_flat_map. split; intros (t & Ht & Hv); exists t; split; auto; apply H; auto.
 Qed.
 
 End E.
